@@ -153,6 +153,7 @@ def summary_eval(chk, repo, mod):
         return sep.join(f'{s_}_{k}="{v}"' for s_, k, v in entries) + (sep if final else "")
 
     groups = []
+    through_open = [True]
 
     def run(content):
         I = Interp(repo)
@@ -163,7 +164,19 @@ def summary_eval(chk, repo, mod):
             return Obj("ExceptionGroup", OrderedDict(message=a[0] if a else Const(None), exceptions=a[1] if len(a) > 1 else ListLit([]), classes=Const(("ExceptionGroup", "Exception", "BaseException", "object"))))
         sc.vars["ExceptionGroup"] = Fn("py", impl=eg, name="ExceptionGroup")
         try:
-            out = I.call(I.lookup("parse_summary", sc), [Const(content)], {})
+            if through_open[0]:
+                # the way a product is opened: bytes of the summary file -> open_summary -> (decode) -> parse_summary; the section
+                # transformers are replaced by the identity so that the parsed sections can be read off
+                sc.vars["transform_summary"] = Fn("py", impl=lambda I_, a, kw: a[0], name="transform_summary")
+                mapper = Obj("Mapper", OrderedDict(root=Const("memory://product")))
+                mapper.fields["__getitem__"] = Fn("py", impl=lambda I_, a, kw: Const(content.encode()), name="__getitem__")
+                try:
+                    out = I.call(I.lookup("open_summary", sc), [mapper, Const("summary.txt")], {})
+                except ShapeError:
+                    through_open[0] = False
+                    return run(content)
+            else:
+                out = I.call(I.lookup("parse_summary", sc), [Const(content)], {})
             return "ok", from_shape(out)
         except _Raise as e:
             return "raise", e
@@ -188,7 +201,8 @@ def summary_eval(chk, repo, mod):
         fails.setdefault("mixed-endings", []).append(f"a text with mixed LF / CRLF endings gives {got.what[:60] if st != 'ok' else got}")
     # corrupted subsets: 5 lines, every non-empty subset, three kinds of corruption
     small = base[:5]
-    corruptions = {"missing quote": lambda l: l[:-1], "missing underscore": lambda l: l.replace("_", "", 1), "trailing garbage": lambda l: l + "x", "two-letter section": lambda l: l[1:], "blank line": lambda l: ""}
+    corruptions = {"missing quote": lambda l: l[:-1], "missing underscore": lambda l: l.replace("_", "", 1), "trailing garbage": lambda l: l + "x", "two-letter section": lambda l: l[1:], "blank line": lambda l: "",
+                   "leading blank": lambda l: " " + l, "trailing blank": lambda l: l + " ", "whitespace only": lambda l: "  "}
     for cname, f in corruptions.items():
         for r in range(1, len(small) + 1):
             for subset in itertools.combinations(range(len(small)), r):
@@ -218,7 +232,8 @@ def summary_eval(chk, repo, mod):
     if not fails:
         for _ in range(n_cases):
             chk.ok("C14-S9", where, "model text")
-        chk.samples.append({"rule": "C14-S9", "where": where, "obligation": {"texts": n_cases, "well-formed variants": 17, "corruption kinds": list(corruptions)}})
+        chk.samples.append({"rule": "C14-S9", "where": where, "obligation": {"texts": n_cases, "well-formed variants": 17, "corruption kinds": list(corruptions),
+                                                                              "entry point": "open_summary on the file's bytes" if through_open[0] else "parse_summary on the decoded text"}})
 
 
 def section_schema(chk, repo, mod):
